@@ -522,7 +522,13 @@ pub fn run_one(run: &Value) -> Vec<Value> {
                 break;
             }
             for st in pre[pi].as_array().unwrap_or(&empty) {
-                d.apply(st);
+                if st["op"].as_str() == Some("timeout") {
+                    // a slow peer: time passes while the handshake is under way
+                    log(&mm, json!({"e": "timeout"}));
+                    tokio::time::advance(Duration::from_secs(3600)).await;
+                } else {
+                    d.apply(st);
+                }
             }
             pi += 1;
         }
